@@ -757,18 +757,18 @@ def run_distfit(tr, op, program):
     trainer = tr.trainer('dist:' + kind)
     kw = dict(op['opts'])
     if sal is not None:
-        kw['saliency'] = sal
+        kw['saliency'] = models._lib(sal)
     fault = op.get('fault')
     fired = None
     try:
         if fault:
             with seams.lapack_shim({fault['func']: [fault['k']]}) as shim:
                 try:
-                    model = trainer.fit(y, **kw)
+                    model = trainer.fit(models._lib(y), **kw)
                 finally:
                     fired = shim.fired[0] if shim.fired else None
         else:
-            model = trainer.fit(y, **kw)
+            model = trainer.fit(models._lib(y), **kw)
     except Exception as e:
         tr.count('library_exception')
         tr.add('library_exceptions', f'{entry}:{type(e).__name__}')
@@ -806,7 +806,7 @@ def run_distfit(tr, op, program):
         y_rep.setflags(write=False)
         try:
             m2 = catalogue.dist_trainer_class(kind)(
-                **(tr.tk.get('dist:' + kind) or {})).fit(y_rep, **op['opts'])
+                **(tr.tk.get('dist:' + kind) or {})).fit(models._lib(y_rep), **op['opts'])
         except Exception as e:
             tr.log.append(['distfit-rep', entry, 'raised:' + type(e).__name__])
             return
@@ -876,7 +876,7 @@ def run_tyler(tr, op, program):
     opts = op['opts']
     trainer = tr.trainer('dist:cacg')
     try:
-        model = trainer.fit(y, iterations=op['iterations'], **opts)
+        model = trainer.fit(models._lib(y), iterations=op['iterations'], **opts)
     except Exception as e:
         tr.count('library_exception')
         tr.add('library_exceptions', f'{entry}:{type(e).__name__}')
@@ -907,7 +907,7 @@ def run_tyler(tr, op, program):
     tr.count('tyler_comparisons')
     if op['fixed_point']:
         try:
-            m2 = ComplexAngularCentralGaussianTrainer().fit(y, iterations=300, **opts)
+            m2 = ComplexAngularCentralGaussianTrainer().fit(models._lib(y), iterations=300, **opts)
         except Exception:
             return
         C2 = S.impl_cacg_covariance(m2, ())
@@ -1011,10 +1011,24 @@ RUNNERS = {'mixfit': run_mixfit, 'distfit': run_distfit, 'tyler': run_tyler,
 
 
 def execute(program):
+    models.COPY_INPUTS = True
     tr = _T(program)
     S.MARGINS.clear()
     for op in program['ops']:
-        RUNNERS[op['op']](tr, op, program)
+        try:
+            RUNNERS[op['op']](tr, op, program)
+        except Exception as e:
+            # an exception raised by library code that an oracle calls (the
+            # components' log_pdf, an aligner) is an explicit library
+            # exception: no verdict.  Anything else is a harness error.
+            import traceback
+            from . import env
+            tb = traceback.extract_tb(e.__traceback__)
+            if not tb or not tb[-1].filename.startswith(env.PKG_DIR):
+                raise
+            tr.count('library_exception_inside_oracle')
+            tr.add('library_exceptions', f'oracle:{type(e).__name__}')
+            break
         if tr.violations:
             break
     tr.count('ops', len(program['ops']))
